@@ -15,6 +15,7 @@ COQ_STREAMS = {
     'range': (_HDR, 'bad_in_range', ('float * float * float', 'bool'), 2000),
     'ampthr': (_HDR, 'bad_amp_threshes', ('float * float', 'bool'), 2000),
     'min_n': (_HDR, 'bad_min_n', ('Z', 'bool'), 2000),
+    'min_n2': (_HDR, 'bad_min_n_pair', ('option Z * option Z', 'bool'), 2000),
     'option': (_HDR, 'bad_option', ('optname * option string', 'bool'), 2000),
     'optval': (_HDR, 'bad_optval', ('optname * pyval', 'bool'), 2000),
     'fs': (_HDR, 'bad_fs', ('float', 'bool'), 2000),
@@ -28,7 +29,12 @@ RULE = ('exhaustive grid: array shapes {2-D, 3-D} x extents 1..3 x axis in {0, 1
         'inside and just outside its range and at +/-inf through its public entry point; a bad sampling rate through every entry '
         'point that checks it (features, cyclepoints, burst features, objects, groups, limit_df, the four plot functions); bad '
         'thresholds / centre / burst method / reversed amplitude thresholds / min_n_cycles through Bycycle.fit and '
-        'BycycleGroup.fit; every enumerated option with each documented value and an unknown one (tables in Model/Validate.v); '
+        'BycycleGroup.fit; min_n_cycles in BOTH places it can be given (kind min_n2): burst_kwargs x thresholds, each absent / valid '
+        '(0, 3) / negative (-1, -2), amplitude method (and thresholds alone with the cycles method), through compute_features, '
+        'Bycycle and BycycleGroup (given thresholds and the default ones, which carry a valid count; 2-D axis 0 / None, 3-D axis 0 / 1), '
+        'compute_features_2d with one dictionary / a per-signal list / axis None / axis None + list, compute_features_3d axis 0 / 1 / '
+        '(0,1) + 2-D list, compute_burst_features; the count first or last in its dictionary; with and without any burst in the signal; '
+        'every enumerated option with each documented value and an unknown one (tables in Model/Validate.v); '
         'every enumerated option (centre extremum, burst method, first_extrema, direction, progress, axis) with its documented '
         'values and with unknown values of every type - the falsy ones \'\', False, 0, 0.0, b\'\', (), [], truthy ones, None '
         'where it is not documented, and each documented string in another case, padded with a blank, as bytes, in a tuple, in '
@@ -46,7 +52,11 @@ ASSUMPTIONS = ['the place where a ValueError is raised is free (fs = 0 is reject
                'a value that Python compares equal to a documented one but has another type (axis False, 0.0, True, 1.0, '
                '(0.0, 1.0)) is neither a documented nor an unknown value: no verdict',
                'NaN thresholds and the first_extrema override of compute_shape_features are not clauses of the property: they are '
-               'compared with the model only']
+               'compared with the model only',
+               'min_n_cycles in two dictionaries (kind min_n2): a count in burst_kwargs is only a setting of the amplitude method (the '
+               'cycles method never reads burst_kwargs; not generated there). The whole 5 x 5 grid is generated for every entry point '
+               'since the repairs 5602cfc / 890cd9b in /repo (two classes had been excluded as PENDING-DEFECT 1, 2 while the '
+               'implementation accepted them: .work/wp/WP15_defect_{1,2}.md)']
 AXES = {'0': 0, '1': 1, '01': (0, 1), 'None': None, '2': 2, 'x': 'x'}
 AXC = {'0': 'Ax0', '1': 'Ax1', '01': 'Ax01', 'None': 'AxNone', '2': 'AxOther', 'x': 'AxOther'}
 
@@ -237,6 +247,101 @@ def _optval_cases(rng, tier):
             for v in vals:
                 out.append({'kind': 'optval', 'opt': opt, 'via': via, 'v': _encv(v)})
     return out
+
+
+# ---------------------------------------------------------------------------------------------------------------------
+# min_n_cycles given in burst_kwargs and / or in the thresholds (kind 'min_n2')
+MIN_N2_VALUES = [None, 0, 3, -1, -2]
+MIN_N2_VIAS = ['compute_features', 'Bycycle', 'Bycycle_default', 'Group2', 'Group2_none', 'Group2_default', 'Group3', 'Group3_1',
+               '2d', '2d_list', '2d_none', '2d_none_list', '3d', '3d_1', '3d_01', 'burst_features']
+MIN_N2_QUIET = ('compute_features', 'Bycycle', '2d_none')     # also on a signal without any burst (shortcut paths)
+
+
+def _min_n2_pending(c):
+    """Input classes kept out of the generator until /repo is repaired (COMMON.md rule 5b): none at present.  The two classes
+    excluded here as PENDING-DEFECT 1 / 2 (.work/wp/WP15_defect_{1,2}.md: amplitude method with a valid count in burst_kwargs and a
+    negative one in the thresholds, whose entry was overwritten unseen; a negative count in burst_kwargs through
+    compute_burst_features, never validated) are repaired in /repo 5602cfc, 890cd9b and generated and judged again."""
+    return None
+
+
+def _min_n2_cases(rng, tier):
+    out = []
+    for via in MIN_N2_VIAS:
+        default_thr = via.endswith('_default') or via == 'burst_features'        # no thresholds argument at this entry point
+        for method in ('amp', 'cycles'):
+            if via == 'burst_features' and method == 'cycles':
+                continue
+            for b in (MIN_N2_VALUES if method == 'amp' else [None]):             # the cycles method does not read burst_kwargs
+                for t in ([None] if default_thr else MIN_N2_VALUES):
+                    for quiet in ((False, True) if via in MIN_N2_QUIET else (False,)):
+                        c = {'kind': 'min_n2', 'via': via, 'method': method, 'bk': b, 'thr': t, 'quiet': quiet,
+                             'first': rng.random() < 0.5}
+                        if _min_n2_pending(c) is None:
+                            out.append(c)
+    return out
+
+
+def _min_n2_dicts(c, good=False):
+    """(burst_kwargs, thresholds) of one case; good = the same dictionaries without any count"""
+    amp = c['method'] == 'amp'
+    bk = {'amp_threshes': (5.0, 6.0) if c['quiet'] else (0.5, 1.5)} if amp else None
+    thr = {'burst_fraction_threshold': 0.5} if amp else {'monotonicity_threshold': 1.0 if c['quiet'] else 0.5,
+                                                          'amp_fraction_threshold': 0.99 if c['quiet'] else 0.0}
+
+    def put(d, n):
+        if n is None or good:
+            return d
+        return dict({'min_n_cycles': n}, **d) if c['first'] else dict(d, min_n_cycles=n)
+    return (put(bk, c['bk']) if amp else None), put(thr, c['thr'])
+
+
+def _run_min_n2(c):
+    from bycycle.features import compute_features, compute_shape_features, compute_burst_features
+    from bycycle.group import compute_features_2d, compute_features_3d
+    from bycycle import Bycycle, BycycleGroup
+    sig, fr, via, method = _sig(), (3, 8), c['via'], c['method']
+    sigs2 = np.array([_sig(240, 0), _sig(240, 1)])
+    sigs3 = np.array([[_sig(240, 0), _sig(240, 1)]])
+
+    def cfk(good=False):
+        bk, thr = _min_n2_dicts(c, good)
+        d = {'burst_method': method, 'threshold_kwargs': thr}
+        if bk is not None:
+            d['burst_kwargs'] = bk
+        return d
+
+    bk, thr = _min_n2_dicts(c)
+    if via == 'compute_features':
+        return compute_features(sig, 100, fr, burst_method=method, burst_kwargs=bk, threshold_kwargs=thr)
+    if via == 'burst_features':
+        dfs = compute_shape_features(sig, 100, fr)
+        return compute_burst_features(dfs, sig, burst_method='amp', burst_kwargs=dict(bk, fs=100, f_range=fr))
+    if via.startswith(('Bycycle', 'Group')):
+        kw = {'burst_method': method, 'burst_kwargs': bk}
+        if not via.endswith('_default'):
+            kw['thresholds'] = thr
+        if via.startswith('Bycycle'):
+            return Bycycle(**kw).fit(sig, 100, fr)
+        fit = {'Group2': {}, 'Group2_none': {'axis': None}, 'Group2_default': {}, 'Group3': {}, 'Group3_1': {'axis': 1}}[via]
+        return BycycleGroup(**kw).fit(sigs3 if via.startswith('Group3') else sigs2, 100, fr, n_jobs=1, **fit)
+    if via == '2d':
+        return compute_features_2d(sigs2, 100, fr, compute_features_kwargs=cfk(), n_jobs=1)
+    if via == '2d_list':
+        return compute_features_2d(sigs2, 100, fr, compute_features_kwargs=[cfk(True), cfk()], n_jobs=1)
+    if via == '2d_none':
+        return compute_features_2d(sigs2, 100, fr, compute_features_kwargs=cfk(), axis=None, n_jobs=1)
+    if via == '2d_none_list':
+        # one analysis of the flattened array with the first entry's options, then every entry's own thresholds: the counts go
+        # into both entries
+        return compute_features_2d(sigs2, 100, fr, compute_features_kwargs=[cfk(), cfk()], axis=None, n_jobs=1)
+    if via == '3d':
+        return compute_features_3d(sigs3, 100, fr, compute_features_kwargs=cfk(), n_jobs=1)
+    if via == '3d_1':
+        return compute_features_3d(sigs3, 100, fr, compute_features_kwargs=cfk(), axis=1, n_jobs=1)
+    if via == '3d_01':
+        return compute_features_3d(sigs3, 100, fr, compute_features_kwargs=[[cfk(True), cfk()]], axis=(0, 1), n_jobs=1)
+    raise KeyError(via)
 
 
 class _SerialPool:
@@ -479,6 +584,7 @@ def cases(rng, tier):
         for v in vals:
             out.append({'kind': 'option', 'opt': opt, 'v': _enc(v)})
     out.extend(_optval_cases(rng, tier))
+    out.extend(_min_n2_cases(rng, tier))
     return out
 
 
@@ -650,6 +756,8 @@ def _run_impl(c):
     if k == 'optval':
         v = _decv(c['v'])
         return _attempt(lambda: _run_optval(c['opt'], c['via'], v))
+    if k == 'min_n2':
+        return _attempt(lambda: _run_min_n2(c))
     if k == 'obj':
         import copy
         kw = copy.deepcopy(OBJ_SETTINGS[c['setting']][1])
@@ -757,6 +865,8 @@ def _expected(c):
         return c['lo'] <= v <= c['hi']
     if k == 'min_n':
         return _num(c['n']) >= 0
+    if k == 'min_n2':                        # a negative count, wherever it is given, must be rejected; the cycles method has no
+        return not any(n is not None and n < 0 for n in (c['bk'], c['thr']))     # burst_kwargs count (never generated there)
     if k == 'ampthr':
         return 0 <= _num(c['lo']) <= _num(c['hi'])
     if k == 'fs':
@@ -784,6 +894,9 @@ def oracle(c, o):
     if want:
         return None if o['r'] == 'ok' else 'valid setting rejected (%s: %s)' % (o['r'], o.get('msg'))
     if o['r'] == 'ok':
+        if c['kind'] == 'min_n2':
+            given = ', '.join('%s min_n_cycles=%r' % (w, n) for w, n in (('burst_kwargs', c['bk']), ('thresholds', c['thr'])) if n is not None)
+            return 'invalid setting accepted and analysed: %s method through %s with %s returned a table' % (c['method'], c['via'], given)
         return 'invalid setting accepted and analysed'
     if o['r'] != 'Value':
         return 'invalid setting raised %s instead of ValueError (%s)' % (o['r'], o.get('msg'))
@@ -806,6 +919,9 @@ def kind_of(c, o):
         k += '/' + c['cls'] + '/' + OBJ_SETTINGS[c['setting']][0]
     elif k == 'optval':
         k += '/' + c['opt'] + '/' + c['via'] + '/' + c['v'][0]
+    elif k == 'min_n2':
+        cls = lambda n: 'absent' if n is None else ('negative' if n < 0 else 'valid')
+        k += '/%s/%s/burst_kwargs:%s/thresholds:%s' % (c['via'], c['method'], cls(c['bk']), cls(c['thr']))
     return k + '/' + o.get('r', '?')
 
 
@@ -860,6 +976,9 @@ def coq_case(c, o):
         if isinstance(n, float) and (math.isinf(n) or n != int(n)):
             return None                      # the model's count is an integer
         return '%s%%Z' % coqio.Z(n), acc
+    if k == 'min_n2':
+        oz = lambda n: 'None' if n is None else '(Some %s%%Z)' % coqio.Z(n)
+        return '(%s, %s)' % (oz(c['bk']), oz(c['thr'])), acc
     if k == 'fs':
         if math.isnan(_num(c['fs'])):
             return None                      # no clause of the property; entry points differ (plot_burst_detect_param draws)
